@@ -64,6 +64,9 @@ pub enum TEv {
     StreamStart,
     /// ... and delivers the remaining chunk
     StreamEnd,
+    /// client: the application sends a QoS 1 publish that the peer never acknowledges (with max_send 1 the send
+    /// window stays full; a second one parks on the window)
+    SendQ1,
 }
 
 #[derive(Clone, Debug)]
@@ -112,6 +115,7 @@ pub struct Tm {
     stream: u8,
     /// half-second slots during which a streamed publish was open (no other packet can be written)
     stream_span: Option<(u32, Option<u32>)>,
+    sends_started: usize,
 }
 
 /// keep-alive period the client asked for / the timeout the library derives or is told to use
@@ -204,7 +208,8 @@ impl Scenario for Tm {
                 next_pid: 1,
                 frame_seq: 0,
                 substeps: 0,
-                app: std::rc::Rc::new(std::cell::RefCell::new(vec![crate::outbound::SenderSt::default()])),
+                app: std::rc::Rc::new(std::cell::RefCell::new((0..4).map(|_| crate::outbound::SenderSt::default()).collect())),
+                sends_started: 0,
                 stream: 0,
                 stream_span: None,
             };
@@ -241,6 +246,7 @@ impl Scenario for Tm {
                 TEv::Done => !self.conn.gates.waiting().is_empty(),
                 TEv::StreamStart => self.stream == 0 && self.conn.sink().is_some(),
                 TEv::StreamEnd => self.stream == 1,
+                TEv::SendQ1 => self.sends_started < 2 && self.conn.sink().is_some(),
             };
             if ok {
                 v.push(*e);
@@ -316,6 +322,12 @@ impl Scenario for Tm {
                 self.busy_from = Some(self.t);
                 let p = rf::encode(self.cfg.ep.ver, &rf::publish(1, pid, "t", b"b"));
                 self.deliver(&p, true);
+            }
+            TEv::SendQ1 => {
+                self.sends_started += 1;
+                if let Some(sk) = self.conn.sink() {
+                    crate::outbound::start_sender(&sk, crate::outbound::SK::Q1, self.sends_started, self.app.clone());
+                }
             }
             TEv::StreamStart | TEv::StreamEnd => {
                 if ev == TEv::StreamStart {
@@ -635,7 +647,13 @@ pub fn configs(tier: Tier) -> Vec<TmCfg> {
             let mut ep = EpCfg::new(ver, Role::Client);
             ep.client_keepalive = k;
             ep.handler_auto = false;
-            v.push(TmCfg { ep, kind: Kind::ClientPing, steady: None, horizon: 14, alphabet: vec![Busy, Done, StreamStart, StreamEnd], max_events: 3, combined: false, prefill_busy: 0 });
+            v.push(TmCfg { ep: ep.clone(), kind: Kind::ClientPing, steady: None, horizon: 14, alphabet: vec![Busy, Done, StreamStart, StreamEnd], max_events: 3, combined: false, prefill_busy: 0 });
+            // the client's send window is exhausted (max_send 1, a publish the peer does not acknowledge, a second
+            // sender parked behind it): the connection is alive, pings must go on (seeded change C20_r4)
+            if k > 0 {
+                ep.max_send = 1;
+                v.push(TmCfg { ep, kind: Kind::ClientPing, steady: None, horizon: 14, alphabet: vec![SendQ1, Busy, Done], max_events: 3, combined: false, prefill_busy: 0 });
+            }
         }
     }
     v
@@ -654,7 +672,7 @@ pub fn run(tier: Tier) -> i32 {
         ck.explore::<Tm>("timers", i, c, &e);
     }
     ck.rule = format!(
-        "virtual clock, half-second grid, horizon = timeout + 5 s: v3/v5 server with keep-alive 1,2,3 s (client value), server override smaller / larger / with client value 0, and 0 = library default; background traffic absent or one complete packet per (period - 0.5 s) delivered whole, in two writes, or split across two slots; on top every placement of up to {} events (one more for the fragment families) out of {{traffic stops, extra packet, partial frame + rest, a handler becomes busy / completes (v3 max_receive 1: reading paused)}}; frame read rate (1 s, 3 s overall, > 4 bytes per period) with every placement of up to 5 fragment deliveries of 1 / 3 / 6 / rest bytes; connect timeout 2 s with CONNECT in up to three fragments (single-version servers, and the combined server with a 2 s protocol-version timeout in front of it); client keep-alive 0..3 s, idle or with a busy handler or with a streamed publish open across a ping. Oracle: timeout only after a gap >= the period (never for live peers, also after a reading pause), with DISCONNECT 0x8D on v5; an idle connection is ended within timeout + 1.5 s; read timeout never earlier than configured nor for a frame above the rate, always for a stalled one; CONNECT in time accepted, late one dropped, no handler before acceptance; client writes PINGREQ at least once per keep-alive period",
+        "virtual clock, half-second grid, horizon = timeout + 5 s: v3/v5 server with keep-alive 1,2,3 s (client value), server override smaller / larger / with client value 0, and 0 = library default; background traffic absent or one complete packet per (period - 0.5 s) delivered whole, in two writes, or split across two slots; on top every placement of up to {} events (one more for the fragment families) out of {{traffic stops, extra packet, partial frame + rest, a handler becomes busy / completes (v3 max_receive 1: reading paused)}}; frame read rate (1 s, 3 s overall, > 4 bytes per period) with every placement of up to 5 fragment deliveries of 1 / 3 / 6 / rest bytes; connect timeout 2 s with CONNECT in up to three fragments (single-version servers, and the combined server with a 2 s protocol-version timeout in front of it); client keep-alive 0..3 s, idle or with a busy handler or with a streamed publish open across a ping or with the send window exhausted (max_send 1, unacknowledged publish, a second sender parked). Oracle: timeout only after a gap >= the period (never for live peers, also after a reading pause), with DISCONNECT 0x8D on v5; an idle connection is ended within timeout + 1.5 s; read timeout never earlier than configured nor for a frame above the rate, always for a stalled one; CONNECT in time accepted, late one dropped, no handler before acceptance; client writes PINGREQ at least once per keep-alive period",
         ecfg.max_dev
     );
     ck.assumptions = vec![
